@@ -33,6 +33,7 @@ type Harness struct {
 	mu       sync.Mutex
 	Arrivals []Arrival
 	inReobs  atomic.Bool
+	curReobs ethcommon.Hash // the transaction of the re-observation request in flight
 	ReobsN   map[ethcommon.Hash]int
 	cancel   context.CancelFunc
 	RunExits int32
@@ -60,6 +61,11 @@ func Start(sim *Sim, mode string, pollMs uint) *Harness {
 				// read the path flag first: the re-observation handler cannot take the sentinel request (which
 				// ends the window) before this receive has completed
 				reobs := h.inReobs.Load()
+				if reobs { // only the transaction that is being re-observed can arrive by that path
+					h.mu.Lock()
+					reobs = m.TxHash == h.curReobs
+					h.mu.Unlock()
+				}
 				_, n := sim.LogLen()
 				h.mu.Lock()
 				h.Arrivals = append(h.Arrivals, Arrival{Msg: m, LogN: n, Reobs: reobs})
@@ -155,6 +161,7 @@ func (h *Harness) Quiesce(n int, wd time.Duration) bool {
 func (h *Harness) Reobserve(tx ethcommon.Hash, wd time.Duration) bool {
 	h.mu.Lock()
 	h.ReobsN[tx]++
+	h.curReobs = tx
 	h.mu.Unlock()
 	h.inReobs.Store(true)
 	defer func() {
@@ -224,19 +231,22 @@ func (h *Harness) JudgeSafety(desc string, trace []string) []Finding {
 		w["log"] = fmt.Sprintf("%s in block %d/%d", l.Note, blk.Number, blk.Variant)
 		key := fmt.Sprintf("%x/%d/%x", tx.Hash, l.Seq, blk.Hash)
 		seen[key]++
-		var maxHead uint64
+		var maxHead, maxHeadBeforeReceipt uint64
 		var lastReceipt *ReceiptAnswer
 		reobsN := 0
 		h.Sim.WithLock(func() {
-			for _, hs := range h.Sim.HeadServed {
-				if hs.LogN <= a.LogN && hs.Head > maxHead {
-					maxHead = hs.Head
-				}
-			}
 			rs := h.Sim.ReceiptServed[tx.Hash]
 			for i := range rs {
 				if rs[i].LogN <= a.LogN {
 					lastReceipt = &rs[i]
+				}
+			}
+			for _, hs := range h.Sim.HeadServed {
+				if hs.LogN <= a.LogN && hs.Head > maxHead {
+					maxHead = hs.Head
+				}
+				if lastReceipt != nil && hs.LogN <= lastReceipt.LogN && hs.Head > maxHeadBeforeReceipt {
+					maxHeadBeforeReceipt = hs.Head
 				}
 			}
 		})
@@ -266,6 +276,12 @@ func (h *Harness) JudgeSafety(desc string, trace []string) []Finding {
 			out = append(out, Finding{path + ":forwarded-for-a-block-the-receipt-no-longer-points-to", w})
 		case maxHead < need:
 			out = append(out, Finding{path + ":forwarded-before-required-depth", w})
+		case maxHeadBeforeReceipt < need:
+			// "... and at that moment the transaction's receipt still points to the same block": the receipt has to be (re-)checked
+			// once the depth is known, not the other way round - a head read after the receipt says nothing about the block the
+			// receipt named
+			w["head_served_before_the_last_receipt_answer"] = maxHeadBeforeReceipt
+			out = append(out, Finding{path + ":depth-learnt-only-after-the-last-receipt-answer", w})
 		}
 	}
 	return out
